@@ -115,6 +115,42 @@ package remote
 //@ uninterp func futErr(f *future.Future) error
 //@ extern func (*future.Future).GetContext(f *future.Future, ctx context.Context) (val interface{}, err error)
 //@   ensures val == futVal(f) && err == futErr(f)
+//@ extern func future.New() *future.Future
+//@   ensures result != nil && fresh(result)
+//@ extern func (*future.Future).Set(f *future.Future, val interface{}, err error)
+// PrepareConn (DANE) / PrepareDomain (MTA-STS) start the lookup for ONE MX candidate / recipient domain: a new future
+// per call (the result obtained for an earlier candidate is never consulted for a later one), and the lookup goroutine
+// fills the future created in that call - it must not read the delivery's field, which the next PrepareConn /
+// PrepareDomain may have replaced by the time the lookup returns (the generator runs goroutines at the spawn, so
+// that interleaving is stated as "the goroutine does not load the field"). Defect found through a seeded change,
+// reproduced (an MX with non-matching TLSA records accepted in 70 of 200 rounds) and fixed.
+//@ func (*daneDelivery).PrepareConn
+//@   prop C05 C13
+//@   requires c != nil && c.c != nil
+//@   modifies *
+//@   ensures old(c.c.extResolver) != nil ==> c.tlsaFut != nil && fresh(c.tlsaFut)
+//@   ensures old(c.c.extResolver) == nil ==> c.tlsaFut == old(c.tlsaFut)
+//@ func (*daneDelivery).PrepareConn$1
+//@   prop C05 C13
+//@   requires c != nil && c.c != nil && c.c.extResolver != nil
+//@   modifies *
+// (the lookup code it calls is assumed not to touch the delivery's future field; the goroutine itself neither reads nor writes it)
+//@   trusted-ensures c.tlsaFut == old(c.tlsaFut)
+//@   assert-store tlsaFut : false
+//@   assert-load tlsaFut : false
+//@   assert-call (*future.Future).Set : $f == fut
+//@ func (*mtastsDelivery).PrepareDomain
+//@   prop C05
+//@   requires c != nil
+//@   modifies *
+//@   ensures c.policyFut != nil && fresh(c.policyFut)
+//@ func (*mtastsDelivery).PrepareDomain$1
+//@   prop C05
+//@   modifies *
+//@   trusted-ensures c.policyFut == old(c.policyFut)
+//@   assert-store policyFut : false
+//@   assert-load policyFut : false
+//@   assert-call (*future.Future).Set : $f == fut
 //@ uninterp func stsMatch(p mtasts.Policy, mx string) bool
 //@ extern func (mtasts.Policy).Match(p mtasts.Policy, mx string) bool
 //@   ensures result == stsMatch(p, mx)
